@@ -75,6 +75,29 @@ def run(ctx):
             if blob is not None:
                 r.restore("a2", cls, ps, blob)
             traces.append(r.json())
+    # widths of special shapes (Mersenne-like, all-ones below the leading byte, exact powers of 256, 8+ bytes wide) with the
+    # draws that sit on the acceptance boundary: width-1 (accepted), width and width+1 (rejected, then 0 is accepted),
+    # the largest masked value, the leading byte of the width followed by all ones
+    shapes = []
+    for k in (2, 3, 7, 8, 9, 12, 16, 20, 32, 48):
+        shapes += [2 ** (8 * k) - 1, 2 ** (8 * k), 2 ** (8 * k) + 1, 2 ** (8 * k - 3) - 1, 2 ** (8 * k - 1) + 1,
+                   (0xe9 << (8 * (k - 1))) | (2 ** (8 * (k - 1)) - 1), (0x37 << (8 * (k - 1))) | (2 ** (8 * (k - 1)) - 2)]
+    shapes += [2 ** 61 - 1, 2 ** 89 - 1, 2 ** 127 - 1, 2 ** 521 - 1, 2 ** 255 - 19, 10 ** 30, 3 * 2 ** 70]
+    if not thorough:
+        shapes = shapes[ctx.seed % 2::2] + [2 ** 61 - 1, 2 ** 127 - 1]
+    for i in range(0, len(shapes), 6):
+        ts = Trace("randrange-shapes-%d" % i, uni)
+        for W in shapes[i:i + 6]:
+            nbw = (W.bit_length() + 7) // 8
+            bew = lambda n: (n % 256 ** nbw).to_bytes(nbw, "big")
+            lead = (W >> (8 * (nbw - 1))) << (8 * (nbw - 1))
+            for start in (0, 7):
+                ts.raw(pure.ev_rr(start, start + W, bew(W - 1)))
+                ts.raw(pure.ev_rr(start, start + W, bew(W) + bew(0)))
+                ts.raw(pure.ev_rr(start, start + W, bew(W + 1) + bew(W) + bew(W - 2 if W > 2 else 0)))
+                ts.raw(pure.ev_rr(start, start + W, bew(lead | (2 ** (8 * (nbw - 1)) - 1)) + bew(1)))
+                ts.raw(pure.ev_rr(start, start + W, b"\xff" * nbw + bew(lead) + bew(0)))
+        traces.append(ts.to_json())
     traces.append(t.to_json())
     # toy groups: every scalar from a stream, with 0..2 forced redraws (entropy log validated in every session trace)
     for g in (["i11", "i23", "i263", "ed37"] if thorough else ["i23", "ed37"]):
